@@ -1,18 +1,20 @@
 #!/bin/sh
 # tools/regress.sh [out.md] : run every own mutant (mutants/<cNN>-*.diff) and every seeded change (seeded/<ID>*/patch.diff, or
 # patch-rebased.diff where a later fix moved the context) against the check of its property and the checks that caught it when it
-# was seeded (meta.json), quick tier, VERIF_SEED=0, and write a markdown table.  Uses the repository: run nothing else on it meanwhile.
+# was seeded (meta.json), quick tier, VERIF_SEED=0, and write a markdown table.  ONLY=<regex> restricts the trees by path.  Uses the repository: run nothing else on it meanwhile.
 cd "$(dirname "$0")/.."
 out=${1:-mutants/RESULTS.md}
 {
 echo "| broken tree | check | result |"
 echo "|---|---|---|"
 for p in mutants/*.diff; do
+  [ -n "$ONLY" ] && ! echo "$p" | grep -Eq "$ONLY" && continue
   id=$(basename $p | cut -c1-3 | tr c C)
   r=$(tools/mutate.sh $PWD/$p $id 2>&1 | head -1 | sed 's/|/\//g' | cut -c1-220)
   echo "| $(basename $p .diff) | $id | $r |"
 done
 for d in seeded/*/; do
+  [ -n "$ONLY" ] && ! echo "$d" | grep -Eq "$ONLY" && continue
   n=$(basename $d); id=$(echo $n | cut -c1-3)
   pf=$PWD/$d/patch.diff; [ -f $d/patch-rebased.diff ] && pf=$PWD/$d/patch-rebased.diff
   ids=$(/venv/bin/python - "$d/meta.json" "$id" <<'PY'
